@@ -350,7 +350,7 @@ Lemma mkdir_nonempty (s : fsys) (v : view) (name : str) (perm : N) :
     let r := search_node s v name SlLstat in
     if negb (is_not_exist (sr_err r)) || negb (pi_is_last (sr_pi r)) then (s, RFail (sr_err r))
     else match sr_parent r with
-         | None => (s, RPanic)
+         | None => (s, RFail (sr_err r))
          | Some parent =>
              if negb (perm_on (f_heap s) parent (N.lor OpenWrite OpenLookup) (v_user v)) then (s, RFail EPermDenied)
              else
@@ -838,7 +838,7 @@ Lemma open_wct (s : fsys) (v : view) (vi : nat) (name : str) (perm : N) :
     if (negb (is_file_exists e) && negb (is_not_exist e)) || negb (pi_is_last (sr_pi r)) then (s, inl (RFail e))
     else if is_not_exist e then
       match sr_parent r with
-      | None => (s, inl RPanic)
+      | None => (s, inl (RFail e))
       | Some parent =>
           if negb (perm_on h parent (N.lor OpenWrite OpenLookup) (v_user v)) then (s, inl (RFail EPermDenied))
           else match alookup str_eqb (pi_part (sr_pi r)) (children h parent) with
